@@ -60,6 +60,7 @@ func checkC15(c *Ctx) {
 	c.checkEndingOrigin(clearers)
 	c.checkAcceptRecordedAfterPublished()
 	c.checkNoRefusalAfterSave()
+	c.checkCallTimerStoppedOnlyWhenSettled()
 	c.checkIceBehindEnabled()
 	// (4) re-entrancy
 	c.checkSlotReentrancy(slot)
